@@ -38,12 +38,20 @@ SCENARIOS = {
     "S10_registry_changes_during_fanout": dict(conns=("c1", "c2", "c3", "c4"), script=[("c1", ["REQ", "x", {"kinds": [1]}]), ("c4", ["REQ", "v", {"kinds": [1]}]),
                                                                                    ("c2", ["EVENT", E1]), ("c3", ["REQ", "z", {"kinds": [1]}]), ("c2", ["EVENT", E3])],
                                                allow_drop=("c4",)),
+    # two live connections from ONE address whose connection ids collide (the id is the address plus 16 random bits): they stay two
+    # clients - each keeps its own subscription x, and the one that stays keeps receiving after the other one left
+    "S11_colliding_connection_ids": dict(conns=("c1", "c2", "c3"), script=[("c1", ["REQ", "x", {"kinds": [1]}]), ("c2", ["REQ", "x", {"kinds": [1]}]),
+                                                                        ("c3", ["EVENT", E1]), ("c2", DROP), ("c3", ["EVENT", E3])],
+                                        same_addr=("c1", "c2"), force_token="abcd"),
     "S8_stalled_subscriber": dict(conns=("c1", "c2"), script=[("c1", ["REQ", "x", {"kinds": [1]}]), ("c2", ["EVENT", E1]), ("c2", ["EVENT", E3])], stall=("c1",)),
 }
 ADDR = {"c1": "1.1.1.1", "c2": "2.2.2.2", "c3": "3.3.3.3", "c4": "4.4.4.4"}
 
 
 def _setup_store(w):
+    from ..env import TOKENS as _T
+
+    _T.forced = None  # (a scenario that forces colliding connection ids sets it after this)
     f = w.connect("setup", "9.9.9.9")
     w.run(1e6)
     for ev in (P0, P1):
@@ -64,9 +72,24 @@ def _setup_store(w):
 def make_scenario(name, backend):
     base, _, policy = name.partition("@")
     d = SCENARIOS[base]
-    return Scenario("%s|%s" % (name, backend), backend, [(c, ADDR[c]) for c in d["conns"]], d["script"],
+    addr = dict(ADDR)
+    for c in d.get("same_addr", ()):
+        addr[c] = "7.7.7.7"
+    setup = _setup_store
+    finish = None
+    if d.get("force_token"):
+        from ..env import TOKENS
+
+        def setup(w, tok=d["force_token"]):
+            _setup_store(w)
+            TOKENS.forced = tok
+
+        def finish(w, x):
+            TOKENS.forced = None
+
+    return Scenario("%s|%s" % (name, backend), backend, [(c, addr[c]) for c in d["conns"]], d["script"],
                     storage_options={"stats_interval": 1e15}, allow_drop=d.get("allow_drop", ()), stall=d.get("stall", ()),
-                    setup=_setup_store, horizon=30.0, policy=policy or "actor")
+                    setup=setup, horizon=30.0, policy=policy or "actor", finish=finish)
 
 
 def cases(tier):
@@ -292,6 +315,10 @@ def run_table(case):
     # the live subscription additionally carries a limit (absent, 0, 1, 5 in rotation; all four for the first filters): a limit bounds the
     # stored answer only, it is not a matching condition
     todo = []
+    # the same author / id spelled in upper and mixed case (filters are normalised before either kind of matching)
+    mixed = lambda h: "".join(c.upper() if i % 2 else c for i, c in enumerate(h))  # noqa: E731
+    for f in ({"authors": [ev["pubkey"].upper()]}, {"ids": [ev["id"].upper()]}, {"authors": [mixed(ev["pubkey"])], "kinds": [ev["kind"]]}, {"ids": [mixed(ev["id"])]}):
+        todo.append((f, None))
     for i, f in enumerate(filters):
         for L in ((None, 0, 1, 5) if i < 12 else ((None, 0, 1, 5)[i % 4],)):
             todo.append((f, L))
